@@ -150,7 +150,49 @@ func (c *ctx) finish() {
 		}
 		var b strings.Builder
 		fmt.Fprintf(&b, "From Coq Require Import String.\nFrom Coq Require Import List NArith ZArith.\nFrom PK.Base Require Import Bytes.\nFrom PK.Corr Require Import %s.\nImport ListNotations.\nLocal Open Scope N_scope.\nLocal Open Scope string_scope.\n", c.corr)
-		for _, p := range c.preamble {
+		// only the definitions this shard's cases refer to (directly or through other definitions), in their order
+		idents := func(text string, into map[string]bool) {
+			start := -1
+			for i := 0; i <= len(text); i++ {
+				isW := i < len(text) && (text[i] == '_' || text[i] == '\'' || (text[i] >= '0' && text[i] <= '9') || (text[i] >= 'a' && text[i] <= 'z') || (text[i] >= 'A' && text[i] <= 'Z'))
+				if isW && start < 0 {
+					start = i
+				} else if !isW && start >= 0 {
+					into[text[start:i]] = true
+					start = -1
+				}
+			}
+		}
+		used := map[string]bool{}
+		for i := lo; i < hi; i++ {
+			idents(c.casesBuf[i], used)
+		}
+		keep := make([]bool, len(c.preamble))
+		for changed := true; changed; {
+			changed = false
+			for k, p := range c.preamble {
+				if keep[k] {
+					continue
+				}
+				// an entry without a Definition is always kept; one with several if any of them is referred to
+				f := strings.Fields(p)
+				named, hit := false, false
+				for i := 0; i+1 < len(f); i++ {
+					if f[i] == "Definition" {
+						named = true
+						hit = hit || used[strings.TrimSuffix(f[i+1], ":")]
+					}
+				}
+				if !named || hit {
+					keep[k], changed = true, true
+					idents(p, used)
+				}
+			}
+		}
+		for k, p := range c.preamble {
+			if !keep[k] {
+				continue
+			}
 			b.WriteString(p)
 			b.WriteString("\n")
 		}
